@@ -1,36 +1,40 @@
 import ScrutModel.Lemmas.EscapingPrintable
+import ScrutModel.Lemmas.EscapingGuard
 /-!
 # C11 — Escaping is lossless and produces printable text
 
 For a line of output bytes `bs` (no line feed inside: what `trim_newlines` leaves of a piece of
-`split_at_newline`) scrut writes `escapedExpectation mode isOther bs`: by `C11_written` this is
-the text `t` itself when `written … = (.equal, t)`, and `t ++ " (escaped)"` when
-`written … = (.escaped, t)`. Reading back "as that kind" is `readBack`: `EqualRule` on `t`,
-resp. `EscapedRule::make` on `t` (which strips a trailing ` (no-eol)` and runs the two decoder
-passes) followed by `matches`.
+`split_at_newline`) scrut writes `escapedExpectation mode isOther bs`. `written mode isOther bs`
+is the kind that is chosen and the rendering; `writtenText mode isOther bs` is the text that is
+written for it: the rendering itself for the kind `equal`, and for the kind `escaped` the
+rendering after `guard_tailing_no_eol` (a tailing ` (no-eol)` gets its blank written `\x20`),
+which is then followed by ` (escaped)` (`C11_written`). Reading back "as that kind" is `readBack`:
+`EqualRule` on the text, resp. `EscapedRule::make` on the text (which strips a trailing
+` (no-eol)` and runs the two decoder passes) followed by `matches`.
 
 `isOther` stands for `char::is_other()`; unicode-mode theorems assume `AsciiContract isOther`
 (on ASCII it is exactly 0x00..0x1f and 0x7f), which the harness checks on the real crate.
 
-**Full-strength statement (FALSE today, see `C11_lossless_fails_on_witness`):**
-```
-theorem C11_lossless (m isOther) (hC : m = .unicode → AsciiContract isOther) (bs) (h : NoLF bs) :
-    let (k, t) := written m isOther bs
-    readBack k t (bs ++ [10]) = some true ∧ (k = .escaped → readBack k t bs = some true) ∧
-    ∀ line, readBack k t line = some true → trimNewlines line = bs
-```
-It fails exactly when the escaped form is chosen and the escaped text ends in ` (no-eol)`:
-`EscapedRule::make` strips that suffix (Cram compatibility) before decoding.
+History: before fix c1bf05c the escaped text was written without the guard and content such as
+`x<0x01> (no-eol)` did not read back (former finding `C11:no-eol-suffix-stripped`);
+`C11_regression_no_eol` is that witness, now positive, and `C11_unguarded_text_would_fail` records
+why the guard is needed.
 -/
 namespace Scrut.Props.C11
 open Scrut.Utf8 Scrut.Esc Scrut.EscF Scrut.Rules Scrut.EscLemmas
 
-/-- the text scrut writes is the text of `written`, marked ` (escaped)` iff the kind is escaped -/
+/-- the text scrut writes is `writtenText`, marked ` (escaped)` iff the kind is escaped -/
 theorem C11_written (m : Mode) (isOther : Char → Bool) (line : List UInt8) :
     escapedExpectation m isOther line =
-      match written m isOther (trimNewlines line) with
-      | (.equal, t) => t
-      | (.escaped, t) => t ++ marker := rfl
+      match (written m isOther (trimNewlines line)).1 with
+      | .equal => writtenText m isOther (trimNewlines line)
+      | .escaped => writtenText m isOther (trimNewlines line) ++ marker :=
+  escapedExpectation_eq m isOther line
+
+/-- the escaped text never ends in ` (no-eol)`: `EscapedRule::make` strips nothing from it -/
+theorem C11_no_eol_guarded (m : Mode) (isOther : Char → Bool) (bs : List UInt8)
+    (h : (written m isOther bs).1 = .escaped) : endsWithNoEol (writtenText m isOther bs) = false := by
+  rw [writtenText_escaped h]; exact endsWithNoEol_guard _
 
 /-- **printable, ascii mode**: every character written is in 0x20..0x7e (any line, any bytes) -/
 theorem C11_ascii_printable (isOther : Char → Bool) (line : List UInt8) :
@@ -43,19 +47,18 @@ theorem C11_unicode_printable (isOther : Char → Bool) (hC : AsciiContract isOt
     ∀ c ∈ escapedExpectation .unicode isOther line, isOther c = false :=
   unicode_printable isOther hC line
 
-/-- **lossless** (partial: guarded by "the escaped text does not end in ` (no-eol)`", needed only
-when the escaped form is chosen): read back as the kind it is written as, the text matches the
-line it was written for (with its line feed; an escaped expectation also without), and every line
-it matches has exactly the content `bs`. Both modes, every byte string without line feed. -/
-theorem C11_lossless_partial (m : Mode) (isOther : Char → Bool)
-    (hC : m = .unicode → AsciiContract isOther) (bs : List UInt8) (h : NoLF bs)
-    (hg : (written m isOther bs).1 = .escaped → endsWithNoEol (written m isOther bs).2 = false) :
-    readBack (written m isOther bs).1 (written m isOther bs).2 (bs ++ [10]) = some true ∧
+/-- **lossless** (full strength: both modes, every byte string without line feed, no guard):
+read back as the kind it is written as, the written text matches the line it was written for
+(with its line feed; an escaped expectation also without), and every line it matches has exactly
+the content `bs`. -/
+theorem C11_lossless (m : Mode) (isOther : Char → Bool)
+    (hC : m = .unicode → AsciiContract isOther) (bs : List UInt8) (h : NoLF bs) :
+    readBack (written m isOther bs).1 (writtenText m isOther bs) (bs ++ [10]) = some true ∧
     ((written m isOther bs).1 = .escaped →
-      readBack (written m isOther bs).1 (written m isOther bs).2 bs = some true) ∧
-    ∀ line, readBack (written m isOther bs).1 (written m isOther bs).2 line = some true →
+      readBack (written m isOther bs).1 (writtenText m isOther bs) bs = some true) ∧
+    ∀ line, readBack (written m isOther bs).1 (writtenText m isOther bs) line = some true →
       trimNewlines line = bs :=
-  lossless m isOther hC bs h hg
+  lossless_full m isOther hC bs h
 
 /-- the bytes of `x\x01 (no-eol)` (with a real 0x01) -/
 def witness : List UInt8 := [120, 1, 32, 40, 110, 111, 45, 101, 111, 108, 41]
@@ -63,15 +66,25 @@ def witness : List UInt8 := [120, 1, 32, 40, 110, 111, 45, 101, 111, 108, 41]
 /-- an `is_other` satisfying the contract (C0, DEL and C1 controls) -/
 def ctrlOnly (c : Char) : Bool := c.toNat < 0x20 || (0x7f ≤ c.toNat && c.toNat < 0xa0)
 
-/-- **the unguarded statement is false** (known finding `C11:no-eol-suffix-stripped`): the line
-`x<0x01> (no-eol)` is written `x\x01 (no-eol) (escaped)` in both modes, which reads back as the
-content `x<0x01>` and does not match the line it was written for. -/
-theorem C11_lossless_fails_on_witness :
+/-- **regression example** (the witness of the former finding `C11:no-eol-suffix-stripped`): the
+line `x<0x01> (no-eol)` is written `x\x01\x20(no-eol) (escaped)` in both modes, which matches the
+line and does not match the content `x<0x01>`. -/
+theorem C11_regression_no_eol :
     NoLF witness ∧
-    written .ascii ctrlOnly witness = (.escaped, ['x', '\\', 'x', '0', '1', ' ', '(', 'n', 'o', '-', 'e', 'o', 'l', ')']) ∧
-    written .unicode ctrlOnly witness = (.escaped, ['x', '\\', 'x', '0', '1', ' ', '(', 'n', 'o', '-', 'e', 'o', 'l', ')']) ∧
-    readBack .escaped ['x', '\\', 'x', '0', '1', ' ', '(', 'n', 'o', '-', 'e', 'o', 'l', ')'] (witness ++ [10]) = some false ∧
-    readBack .escaped ['x', '\\', 'x', '0', '1', ' ', '(', 'n', 'o', '-', 'e', 'o', 'l', ')'] [120, 1, 10] = some true := by
+    (written .ascii ctrlOnly witness).1 = .escaped ∧ (written .unicode ctrlOnly witness).1 = .escaped ∧
+    writtenText .ascii ctrlOnly witness = ['x', '\\', 'x', '0', '1', '\\', 'x', '2', '0', '(', 'n', 'o', '-', 'e', 'o', 'l', ')'] ∧
+    writtenText .unicode ctrlOnly witness = ['x', '\\', 'x', '0', '1', '\\', 'x', '2', '0', '(', 'n', 'o', '-', 'e', 'o', 'l', ')'] ∧
+    readBack .escaped (writtenText .ascii ctrlOnly witness) (witness ++ [10]) = some true ∧
+    readBack .escaped (writtenText .ascii ctrlOnly witness) witness = some true ∧
+    readBack .escaped (writtenText .ascii ctrlOnly witness) [120, 1, 10] = some false := by
+  decide
+
+/-- why the guard is needed: the unguarded rendering `x\x01 (no-eol)`, read as an escaped
+expectation, does not match the line it stands for (it matches `x<0x01>`) -/
+theorem C11_unguarded_text_would_fail :
+    (written .ascii ctrlOnly witness).2 = ['x', '\\', 'x', '0', '1', ' ', '(', 'n', 'o', '-', 'e', 'o', 'l', ')'] ∧
+    readBack .escaped (written .ascii ctrlOnly witness).2 (witness ++ [10]) = some false ∧
+    readBack .escaped (written .ascii ctrlOnly witness).2 [120, 1, 10] = some true := by
   decide
 
 /-- the decoder used for `String::from_utf8` only accepts bytes that are the encoding of the text
@@ -94,13 +107,14 @@ theorem C11_contract_satisfiable : AsciiContract ctrlOnly := by
   simp only [ctrlOnly, Bool.or_eq_true, Bool.and_eq_true, decide_eq_true_eq]
   omega
 
-/-- hypotheses of `C11_lossless_partial` hold on a line that needs the escaped form, a literal
+/-- hypotheses of `C11_lossless` hold on a line that needs the escaped form, a literal
 backslash next to an escapable letter, and a non-ASCII character (`a\tb<0x01>é`) -/
 example :
     NoLF [97, 92, 116, 98, 1, 0xc3, 0xa9] ∧
     written .unicode ctrlOnly [97, 92, 116, 98, 1, 0xc3, 0xa9] =
       (.escaped, ['a', '\\', '\\', 't', 'b', '\\', 'x', '0', '1', 'é']) ∧
-    endsWithNoEol (written .unicode ctrlOnly [97, 92, 116, 98, 1, 0xc3, 0xa9]).2 = false ∧
+    writtenText .unicode ctrlOnly [97, 92, 116, 98, 1, 0xc3, 0xa9] =
+      ['a', '\\', '\\', 't', 'b', '\\', 'x', '0', '1', 'é'] ∧
     written .ascii ctrlOnly [97, 92, 116, 98, 1, 0xc3, 0xa9] =
       (.escaped, ['a', '\\', '\\', 't', 'b', '\\', 'x', '0', '1', '\\', 'x', 'c', '3', '\\', 'x', 'a', '9']) := by
   decide
